@@ -4,7 +4,7 @@ import json,glob,subprocess,re,os
 out=subprocess.run(['/verif/bin/semaverif','selftest','-j','10'],capture_output=True,text=True,env=dict(os.environ)).stdout
 status={}
 for l in out.splitlines():
-    m=re.match(r'(s2?-\S+)\s+(detected|missed|declared-undetectable|not-applicable)\s*(.*)',l)
+    m=re.match(r'(s\d?-\S+)\s+(detected|missed|declared-undetectable|not-applicable)\s*(.*)',l)
     if m: status[m.group(1)]=(m.group(2),m.group(3).split())
 rows=[]
 for p in sorted(glob.glob('/verif/seeded/*/meta.json')):
@@ -21,8 +21,27 @@ blind=collections.Counter()
 for p2 in glob.glob('/verif/seeded/*/meta.json'):
     d2=json.load(open(p2)); b=d2.get('blind_result','?'); blind[(d2.get('round',1), 'detected' if b.startswith('detected') else ('other' if b.startswith('reported') else 'missed'))]+=1
 tot=len(rows); det=sum(1 for r in rows if '**detected**' in r); und=sum(1 for r in rows if 'undetectable' in r)
-table="| property | round | seed | change | first run, before any rule was touched | final state |\n|---|---|---|---|---|---|\n"+"\n".join(rows)+f"\n\nTotals: {tot} confirmed seeds, {det} detected with the expected construct, {und} declared undetectable, {tot-det-und} missed.\n\nFirst-run (blind) results, i.e. what the checks said before I changed anything in response to a seed: round 1: {blind[(1,'detected')]} detected, {blind[(1,'other')]} reported for another reason, {blind[(1,'missed')]} missed of {blind[(1,'detected')]+blind[(1,'other')]+blind[(1,'missed')]}; round 2 (run against the rules as improved after round 1): {blind[(2,'detected')]} detected, {blind[(2,'other')]} reported for another reason, {blind[(2,'missed')]} missed of {blind[(2,'detected')]+blind[(2,'other')]+blind[(2,'missed')]}. The second number is the honest estimate of how the rules generalise to changes nobody has shown them: roughly one in three. Every miss of both rounds was then turned into a rule clause (or declared undetectable with a reason), which is why the final column is nearly all \"detected\"; that column measures the corpus, not the generalisation.\n"
+rounds=sorted({k[0] for k in blind})
+parts=[]
+for r in rounds:
+    d_,o_,m_=blind[(r,'detected')],blind[(r,'other')],blind[(r,'missed')]
+    parts.append(f"round {r}: {d_} detected, {o_} reported for another reason, {m_} missed of {d_+o_+m_}")
+table="| property | round | seed | change | first run, before any rule was touched | final state |\n|---|---|---|---|---|---|\n"+"\n".join(rows)+f"\n\nTotals: {tot} confirmed seeds, {det} detected with the expected construct, {und} declared undetectable, {tot-det-und} missed.\n\nFirst-run (blind) results, i.e. what the checks said before I changed anything in response to a seed (each round was run against the rules as improved after the previous one): "+"; ".join(parts)+". The later rounds are the honest estimate of how the rules generalise to changes nobody has shown them. Every miss was then turned into a rule clause (or declared undetectable with a reason), which is why the final column is nearly all \"detected\"; that column measures the corpus, not the generalisation.\n"
 s=open('/verif/DESIGN.md').read()
 a=s.index('<!-- MATRIX-BEGIN -->')+len('<!-- MATRIX-BEGIN -->'); b=s.index('<!-- MATRIX-END -->')
-open('/verif/DESIGN.md','w').write(s[:a]+"\n"+table+s[b:])
+s=s[:a]+"\n"+table+s[b:]
+lst=subprocess.run(['/verif/bin/semaverif','list'],capture_output=True,text=True).stdout
+blk=[]
+cur=None
+for l in lst.splitlines():
+    m=re.match(r'(C\d\d) rules=\[(.*)\]',l)
+    if m: cur=[m.group(1),m.group(2),'','']; blk.append(cur); continue
+    if cur and l.strip().startswith('decides:'): cur[2]=l.strip()[len('decides:'):].strip()
+    if cur and l.strip().startswith('not decided:'): cur[3]=l.strip()[len('not decided:'):].strip()
+blk.sort()
+ptab='| property | rule families | decided (structural necessary conditions) | not decided |\n|---|---|---|---|\n'+'\n'.join(f'| {c[0]} | {c[1]} | {c[2]} | {c[3]} |' for c in blk)+'\n'
+if '<!-- PROPS-BEGIN -->' in s:
+    a=s.index('<!-- PROPS-BEGIN -->')+len('<!-- PROPS-BEGIN -->'); b=s.index('<!-- PROPS-END -->')
+    s=s[:a]+'\n'+ptab+s[b:]
+open('/verif/DESIGN.md','w').write(s)
 print(f"{tot} seeds, {det} detected, {und} undetectable")
